@@ -32,7 +32,8 @@ const (
 	KeyFixed   = "fixed"   // verifying key is a circuit constant (ValueOfVerifyingKeyFixed for Groth16)
 	KeyConst   = "const"   // Groth16: non-fixed representation placed as a constant; PLONK: base key constant, circuit key in the witness
 	KeySwitchW = "switchw" // key switching, candidate keys in the witness
-	KeySwitchC = "switchc" // key switching, candidate keys constant (Groth16) / base key constant + circuit keys in witness via AssertDifferentProofs (PLONK)
+	KeySwitchC = "switchc" // key switching, candidate keys constant (Groth16) / base key and circuit keys constant via AssertDifferentProofs (PLONK)
+	KeySame2   = "same2"   // PLONK only: AssertSameProofs on two triples under one constant key (the drawn triple and a genuine companion)
 )
 
 func isSwitch(m string) bool { return m == KeySwitchW || m == KeySwitchC }
@@ -50,6 +51,10 @@ type outerIn struct {
 	G16Proof   groth16.Proof
 	PlonkProof plonk.Proof
 	Pub        witness.Witness
+	// KeySame2: the companion triple and its position (0 = first)
+	PlonkProof2 plonk.Proof
+	Pub2        witness.Witness
+	Pos2        int
 }
 
 type pair interface {
@@ -81,6 +86,9 @@ var pairs = []pair{
 	pairT[sw_bls12381.ScalarField, sw_bls12381.G1Affine, sw_bls12381.G2Affine, sw_bls12381.GTEl]{"bls12-381>bn254", "bls12-381", ecc.BN254, true},
 	pairT[sw_bw6761.ScalarField, sw_bw6761.G1Affine, sw_bw6761.G2Affine, sw_bw6761.GTEl]{"bw6-761>bn254", "bw6-761", ecc.BN254, true},
 }
+
+// hasSubgroupCheck: sw_bls24315.Pairing.AssertIsOnG1/G2 are panic("not implemented").
+func hasSubgroupCheck(pairName string) bool { return pairName != "bls24-315>bw6-633" }
 
 func pairByName(n string) pair {
 	for _, p := range pairs {
@@ -179,6 +187,8 @@ func (p pairT[FR, G1, G2, GT]) G16(in outerIn) (frontend.Circuit, frontend.Circu
 type plonkCircuit[FR emulated.FieldParams, G1 algebra.G1ElementT, G2 algebra.G2ElementT, GT algebra.GtElementT] struct {
 	Proof        stdplonk.Proof[FR, G1, G2]
 	InnerWitness stdplonk.Witness[FR]
+	Proof2       []stdplonk.Proof[FR, G1, G2] // KeySame2: second triple
+	Witness2     []stdplonk.Witness[FR]
 	Selector     []frontend.Variable
 	VK           []stdplonk.VerifyingKey[FR, G1, G2]     // witness-supplied complete key (len 0/1)
 	CKeys        []stdplonk.CircuitVerifyingKey[FR, G1]  // witness-supplied circuit keys
@@ -186,6 +196,7 @@ type plonkCircuit[FR emulated.FieldParams, G1 algebra.G1ElementT, G2 algebra.G2E
 	ConstBase    []stdplonk.BaseVerifyingKey[FR, G1, G2] `gnark:"-"`
 	ConstCKeys   []stdplonk.CircuitVerifyingKey[FR, G1]  `gnark:"-"`
 	Complete     bool                                    `gnark:"-"`
+	Pos2         int                                     `gnark:"-"`
 }
 
 func (c *plonkCircuit[FR, G1, G2, GT]) Define(api frontend.API) error {
@@ -202,6 +213,14 @@ func (c *plonkCircuit[FR, G1, G2, GT]) Define(api frontend.API) error {
 		ckeys = c.ConstCKeys
 	}
 	switch {
+	case len(c.Proof2) == 1:
+		proofs := []stdplonk.Proof[FR, G1, G2]{c.Proof, c.Proof2[0]}
+		wits := []stdplonk.Witness[FR]{c.InnerWitness, c.Witness2[0]}
+		if c.Pos2 == 0 {
+			proofs[0], proofs[1] = proofs[1], proofs[0]
+			wits[0], wits[1] = wits[1], wits[0]
+		}
+		return v.AssertSameProofs(c.ConstVK[0], proofs, wits, opts...)
 	case len(c.Selector) == 1:
 		return v.AssertDifferentProofs(c.ConstBase[0], ckeys, c.Selector,
 			[]stdplonk.Proof[FR, G1, G2]{c.Proof}, []stdplonk.Witness[FR]{c.InnerWitness}, opts...)
@@ -217,7 +236,7 @@ func (c *plonkCircuit[FR, G1, G2, GT]) Define(api frontend.API) error {
 }
 
 func (p pairT[FR, G1, G2, GT]) Plonk(in outerIn) (frontend.Circuit, frontend.Circuit, error) {
-	circ := &plonkCircuit[FR, G1, G2, GT]{Complete: in.Complete}
+	circ := &plonkCircuit[FR, G1, G2, GT]{Complete: in.Complete, Pos2: in.Pos2}
 	asg := &plonkCircuit[FR, G1, G2, GT]{}
 	circ.Proof = stdplonk.PlaceholderProof[FR, G1, G2](in.CCS)
 	circ.InnerWitness = stdplonk.PlaceholderWitness[FR](in.CCS)
@@ -249,12 +268,26 @@ func (p pairT[FR, G1, G2, GT]) Plonk(in outerIn) (frontend.Circuit, frontend.Cir
 		return r
 	}
 	switch in.Mode {
-	case KeyFixed:
+	case KeyFixed, KeySame2:
 		vk, err := stdplonk.ValueOfVerifyingKey[FR, G1, G2](in.PlonkKeys[0])
 		if err != nil {
 			return nil, nil, err
 		}
 		circ.ConstVK = []stdplonk.VerifyingKey[FR, G1, G2]{vk}
+		if in.Mode == KeySame2 {
+			circ.Proof2 = []stdplonk.Proof[FR, G1, G2]{stdplonk.PlaceholderProof[FR, G1, G2](in.CCS)}
+			circ.Witness2 = []stdplonk.Witness[FR]{stdplonk.PlaceholderWitness[FR](in.CCS)}
+			p2, err := stdplonk.ValueOfProof[FR, G1, G2](in.PlonkProof2)
+			if err != nil {
+				return nil, nil, fmt.Errorf("ValueOfProof: %w", err)
+			}
+			w2, err := stdplonk.ValueOfWitness[FR](in.Pub2)
+			if err != nil {
+				return nil, nil, fmt.Errorf("ValueOfWitness: %w", err)
+			}
+			asg.Proof2 = []stdplonk.Proof[FR, G1, G2]{p2}
+			asg.Witness2 = []stdplonk.Witness[FR]{w2}
+		}
 	case KeyWitness:
 		vk, err := stdplonk.ValueOfVerifyingKey[FR, G1, G2](in.PlonkKeys[0])
 		if err != nil {
